@@ -15,10 +15,10 @@ def worker(ctx):
     bp, tr = pycommon.setup_monitors()
     tr.uninstall()
     if ctx.quick:
-        n_cases, n_values, c_every = ctx.per_shard(400), 8, 10
+        n_cases, n_values, c_every = ctx.per_shard(400), 8, 5
         ctx.set_budget(240)
     else:
-        n_cases, n_values, c_every = ctx.per_shard(6400), 20, 10
+        n_cases, n_values, c_every = ctx.per_shard(6400), 20, 5
         ctx.set_budget(3300)
     for k in range(n_cases):
         if ctx.out_of_time():
@@ -50,6 +50,8 @@ def worker(ctx):
             res.count("shadowing_base_schemas")
         else:
             S = gen.gen_schema(rng, cfg)
+            if case_id % c_every == 0:
+                ccommon.add_special_shapes(S, rng)  # the cases that also run generated C carry the shapes C runtimes special-case
         S2, mapping, done = rewrite.apply_rewrites(S, rng, rng.randint(1, 6))
         if not done:
             res.count("cases_without_applicable_rewrite")
@@ -146,7 +148,7 @@ if __name__ == "__main__":
               "independent definitions, introduce/inline alias, nest/un-nest, move definitions into an imported file, literal -> constant "
               "expression, order-preserving renumbering; comment/blank-line/semicolon noise always differs), each kept only if S' is still "
               "printable under the scoping rule; every message value (keyed by field number, mapped through the rewrite) is encoded by the "
-              "generated Python code of S and of S' and the bytes compared; every 10th case also through generated C; both sides are the real "
+              "generated Python code of S and of S' and the bytes compared; every 5th case (which also carries the special array shapes of C03) also through generated C; both sides are the real "
               "system, the reference only names the deviating side; distinct by sha256 of both schema texts"),
         assumptions=["the rewrite implementations in vlib/rewrite.py preserve resolved types and field-number order"],
         required_counters=["py_pairs_compared", "c_pairs_compared", "rewrites:rename", "rewrites:reorder-fields", "rewrites:reorder-definitions",
